@@ -363,6 +363,22 @@ def _dir_part(ctx, top, H, p, skip, rec_params, depth=0):
             # the listing may be walked by a helper generator that yields the entries of sorted(os.listdir(path))
             sl = C.sorted_listing_generator(ctx, H, it)
             srt = sl is not None and norm(sl[0]) == p
+        if not srt and isinstance(it, ast.Call):
+            # a plain helper whose one return is sorted(os.listdir(<its parameter>)...) called with the path
+            tg_ = [t for t in C.targets_of(ctx, H, it) if not t.is_generator]
+            if len(tg_) == 1 and len(C.targets_of(ctx, H, it)) == 1:
+                T_ = tg_[0]
+                rets_ = [r for r in own_nodes(T_.node) if isinstance(r, ast.Return) and r.value is not None]
+                bound_ = ctx.res.bind_args(T_, it, T_.cls is not None and not T_.is_static)
+                if len(rets_) == 1 and isinstance(rets_[0].value, ast.Call) and C.is_ext_call(ctx, rets_[0].value, T_, ("builtins.sorted",)) and len(rets_[0].value.args) == 1:
+                    inner_ = rets_[0].value.args[0]
+                    if isinstance(inner_, ast.Call) and C.is_ext_call(ctx, inner_, T_, ("os.listdir",)) and inner_.args and isinstance(inner_.args[0], ast.Name) \
+                            and isinstance(bound_.get(inner_.args[0].id), ast.AST) and norm(bound_[inner_.args[0].id]) == p \
+                            and not any(isinstance(x, ast.Name) and isinstance(x.ctx, ast.Store) and x.id == inner_.args[0].id for x in own_nodes(T_.node)):
+                        if not rets_[0].value.keywords:
+                            srt = True
+                        else:
+                            return Fact("sorted(os.listdir(path), %s) in %s" % (", ".join("%s=%s" % (k.arg, norm(k.value)[:40]) for k in rets_[0].value.keywords), T_.name), it, H)
         if srt:
             return Fact("sorted(os.listdir(path))", it, H)
         lists = [x for x in ast.walk(it) if isinstance(x, ast.Call) and (C.is_ext_call(ctx, x, H, ("os.listdir", "os.scandir", "os.walk", "glob.glob", "glob.iglob"))
